@@ -1,3 +1,531 @@
 package main
 
-func tableLemmaChecks(P *Prog) []*Enc { return nil }
+import (
+	"fmt"
+	"go/ast"
+	"go/token"
+	"os"
+	"path/filepath"
+	"sort"
+	"strconv"
+	"strings"
+)
+
+// C03 (d): the LR table lemma.
+//
+// The constant tables goyacc compiled into parser/parser.go (yyPact, yyAct, yyChk, yyDef, yyExca) are read from
+// the typed AST of /repo's working tree; the productions are read from parser/parser.go.y (numbered in order,
+// cross-checked against yyR2). lrAction(s, t) transcribes the table lookup of goyacc's driver (trusted contract of
+// the driver). For every operator production p of the expression grammar and every token b that can continue an
+// expression, one obligation: in EVERY state in which p is reducible, lrAction(s, b) is the action the operator
+// table of the property statement dictates (declared in parser/zz_contracts_verif.go as `optable` pragmas):
+// reduce p when p binds tighter than b, or equally and the level is left-associative; shift otherwise.
+
+type yaccTables struct {
+	exca, act, pact, chk, def, r1, r2 []int
+	toknames                         []string
+	last, flag                       int
+}
+
+type production struct {
+	num  int
+	lhs  string
+	rhs  []string
+	prec string
+	line int
+}
+
+func (p production) String() string { return p.lhs + " : " + strings.Join(p.rhs, " ") }
+
+func intLit(x ast.Expr) (int, bool) {
+	switch x := x.(type) {
+	case *ast.BasicLit:
+		n, err := strconv.Atoi(x.Value)
+		return n, err == nil
+	case *ast.UnaryExpr:
+		if x.Op == token.SUB {
+			n, ok := intLit(x.X)
+			return -n, ok
+		}
+	case *ast.ParenExpr:
+		return intLit(x.X)
+	}
+	return 0, false
+}
+
+func readYaccTables(P *Prog) (*yaccTables, string, error) {
+	pkg := findPkg(P, ankoPath+"/parser")
+	if pkg == nil {
+		return nil, "", fmt.Errorf("package parser not loaded")
+	}
+	t := &yaccTables{}
+	dir := ""
+	found := map[string]bool{}
+	for i, f := range pkg.Syntax {
+		_ = i
+		for _, d := range f.Decls {
+			gd, ok := d.(*ast.GenDecl)
+			if !ok {
+				continue
+			}
+			for _, sp := range gd.Specs {
+				vs, ok := sp.(*ast.ValueSpec)
+				if !ok || len(vs.Names) != 1 || len(vs.Values) != 1 {
+					continue
+				}
+				name := vs.Names[0].Name
+				if !strings.HasPrefix(name, "yy") {
+					continue
+				}
+				if name == "yyLast" || name == "yyFlag" {
+					n, ok := intLit(vs.Values[0])
+					if !ok {
+						return nil, "", fmt.Errorf("%s is not an integer literal", name)
+					}
+					if name == "yyLast" {
+						t.last = n
+					} else {
+						t.flag = n
+					}
+					found[name] = true
+					dir = filepath.Dir(P.Fset.Position(f.Pos()).Filename)
+					continue
+				}
+				cl, ok := vs.Values[0].(*ast.CompositeLit)
+				if !ok {
+					continue
+				}
+				if name == "yyToknames" {
+					for _, el := range cl.Elts {
+						bl, ok := el.(*ast.BasicLit)
+						if !ok {
+							return nil, "", fmt.Errorf("yyToknames: unexpected element")
+						}
+						s, _ := strconv.Unquote(bl.Value)
+						t.toknames = append(t.toknames, s)
+					}
+					found[name] = true
+					continue
+				}
+				var dst *[]int
+				switch name {
+				case "yyExca":
+					dst = &t.exca
+				case "yyAct":
+					dst = &t.act
+				case "yyPact":
+					dst = &t.pact
+				case "yyChk":
+					dst = &t.chk
+				case "yyDef":
+					dst = &t.def
+				case "yyR1":
+					dst = &t.r1
+				case "yyR2":
+					dst = &t.r2
+				}
+				if dst == nil {
+					continue
+				}
+				for _, el := range cl.Elts {
+					n, ok := intLit(el)
+					if !ok {
+						return nil, "", fmt.Errorf("%s: element is not an integer literal", name)
+					}
+					*dst = append(*dst, n)
+				}
+				found[name] = true
+			}
+		}
+	}
+	for _, n := range []string{"yyExca", "yyAct", "yyPact", "yyChk", "yyDef", "yyR1", "yyR2", "yyToknames", "yyLast", "yyFlag"} {
+		if !found[n] {
+			return nil, "", fmt.Errorf("table %s not found in package parser", n)
+		}
+	}
+	return t, dir, nil
+}
+
+// readGrammar tokenises the rules section of a yacc file: productions in order, numbered from 1 (0 is $accept).
+func readGrammar(path string) ([]production, error) {
+	data, err := os.ReadFile(path)
+	if err != nil {
+		return nil, err
+	}
+	src := string(data)
+	i := strings.Index(src, "\n%%")
+	if i < 0 {
+		return nil, fmt.Errorf("no %%%% in %s", path)
+	}
+	line := 1 + strings.Count(src[:i+3], "\n")
+	rest := src[i+3:]
+	if j := strings.Index(rest, "\n%%"); j >= 0 {
+		rest = rest[:j]
+	}
+	type tok struct {
+		s    string
+		line int
+	}
+	var toks []tok
+	for k := 0; k < len(rest); {
+		c := rest[k]
+		switch {
+		case c == '\n':
+			line++
+			k++
+		case c == ' ' || c == '\t' || c == '\r':
+			k++
+		case c == '/' && k+1 < len(rest) && rest[k+1] == '*':
+			e := strings.Index(rest[k+2:], "*/")
+			if e < 0 {
+				return nil, fmt.Errorf("unterminated comment")
+			}
+			line += strings.Count(rest[k:k+2+e+2], "\n")
+			k += 2 + e + 2
+		case c == '/' && k+1 < len(rest) && rest[k+1] == '/':
+			for k < len(rest) && rest[k] != '\n' {
+				k++
+			}
+		case c == '\'':
+			e := k + 1
+			for e < len(rest) && rest[e] != '\'' {
+				if rest[e] == '\\' {
+					e++
+				}
+				e++
+			}
+			toks = append(toks, tok{rest[k : e+1], line})
+			k = e + 1
+		case c == '{':
+			// action block: skip with brace matching, honouring Go string/rune literals and comments
+			depth := 0
+			e := k
+			for e < len(rest) {
+				ch := rest[e]
+				if ch == '\n' {
+					line++
+				}
+				if ch == '"' || ch == '\'' || ch == '`' {
+					q := ch
+					e++
+					for e < len(rest) && rest[e] != q {
+						if rest[e] == '\\' && q != '`' {
+							e++
+						}
+						if rest[e] == '\n' {
+							line++
+						}
+						e++
+					}
+					e++
+					continue
+				}
+				if ch == '/' && e+1 < len(rest) && rest[e+1] == '/' {
+					for e < len(rest) && rest[e] != '\n' {
+						e++
+					}
+					continue
+				}
+				if ch == '{' {
+					depth++
+				}
+				if ch == '}' {
+					depth--
+					if depth == 0 {
+						e++
+						break
+					}
+				}
+				e++
+			}
+			toks = append(toks, tok{"{}", line})
+			k = e
+		case c == '|' || c == ':' || c == ';':
+			toks = append(toks, tok{string(c), line})
+			k++
+		case c == '%':
+			e := k + 1
+			for e < len(rest) && (rest[e] == '_' || rest[e] >= 'a' && rest[e] <= 'z') {
+				e++
+			}
+			toks = append(toks, tok{rest[k:e], line})
+			k = e
+		default:
+			e := k
+			for e < len(rest) && (rest[e] == '_' || rest[e] == '.' || rest[e] >= 'a' && rest[e] <= 'z' || rest[e] >= 'A' && rest[e] <= 'Z' || rest[e] >= '0' && rest[e] <= '9') {
+				e++
+			}
+			if e == k {
+				return nil, fmt.Errorf("line %d: unexpected character %q in grammar", line, c)
+			}
+			toks = append(toks, tok{rest[k:e], line})
+			k = e
+		}
+	}
+	var prods []production
+	lhs := ""
+	var cur *production
+	flush := func() {
+		if cur != nil {
+			cur.num = len(prods) + 1
+			prods = append(prods, *cur)
+			cur = nil
+		}
+	}
+	for k := 0; k < len(toks); k++ {
+		t := toks[k]
+		switch {
+		case k+1 < len(toks) && toks[k+1].s == ":" && t.s != "|" && t.s != "{}" && !strings.HasPrefix(t.s, "'") && !strings.HasPrefix(t.s, "%"):
+			flush()
+			lhs = t.s
+			cur = &production{lhs: lhs, line: t.line}
+			k++
+		case t.s == "|":
+			flush()
+			cur = &production{lhs: lhs, line: t.line}
+		case t.s == ";":
+			flush()
+		case t.s == "{}":
+			if cur == nil {
+				return nil, fmt.Errorf("line %d: action outside a rule", t.line)
+			}
+			// a mid-rule action would introduce an extra production: not supported (cross-checked against yyR2 by the caller)
+		case t.s == "%prec":
+			if cur == nil || k+1 >= len(toks) {
+				return nil, fmt.Errorf("line %d: stray %%prec", t.line)
+			}
+			cur.prec = toks[k+1].s
+			k++
+		default:
+			if cur == nil {
+				return nil, fmt.Errorf("line %d: symbol %q outside a rule", t.line, t.s)
+			}
+			cur.rhs = append(cur.rhs, t.s)
+		}
+	}
+	flush()
+	return prods, nil
+}
+
+// lrLookup: goyacc's driver lookup, in Go (used to pick the table entries a query needs; the obligation itself is
+// discharged by the solver over those entries). Returns (shift?, state or production).
+func (t *yaccTables) excaLookup(s, tk int) (int, bool) {
+	xi := 0
+	for {
+		if xi+1 >= len(t.exca) {
+			return 0, false
+		}
+		if t.exca[xi] == -1 && t.exca[xi+1] == s {
+			break
+		}
+		xi += 2
+	}
+	for xi += 2; ; xi += 2 {
+		if xi+1 >= len(t.exca) {
+			return 0, false
+		}
+		n := t.exca[xi]
+		if n < 0 || n == tk {
+			break
+		}
+	}
+	return t.exca[xi+1], true
+}
+
+func (t *yaccTables) excaProds(s int) []int {
+	var out []int
+	xi := 0
+	for {
+		if xi+1 >= len(t.exca) {
+			return nil
+		}
+		if t.exca[xi] == -1 && t.exca[xi+1] == s {
+			break
+		}
+		xi += 2
+	}
+	for xi += 2; xi+1 < len(t.exca); xi += 2 {
+		out = append(out, t.exca[xi+1])
+		if t.exca[xi] < 0 {
+			break
+		}
+	}
+	return out
+}
+
+type opLevel struct {
+	level int
+	assoc string // left | right | unary | postfix
+}
+
+const shiftBase = 100000
+
+func tableLemmaChecks(P *Prog) []*Enc {
+	e := newGroundEnc(P, "parser.lrtable")
+	fail := func(err error) []*Enc {
+		e.unsupported = err.Error()
+		return []*Enc{e}
+	}
+	tb, dir, err := readYaccTables(P)
+	if err != nil {
+		return fail(err)
+	}
+	prods, err := readGrammar(filepath.Join(dir, "parser.go.y"))
+	if err != nil {
+		return fail(err)
+	}
+	// cross-check the production numbering against the compiled tables
+	if len(prods)+1 != len(tb.r2) {
+		return fail(fmt.Errorf("parser.go.y has %d productions, yyR2 has %d entries (parser.go out of date, or a mid-rule action)", len(prods), len(tb.r2)-1))
+	}
+	for _, p := range prods {
+		if tb.r2[p.num] != len(p.rhs) {
+			return fail(fmt.Errorf("production %d (%s): %d symbols in parser.go.y, yyR2 says %d", p.num, p, len(p.rhs), tb.r2[p.num]))
+		}
+	}
+	tokNum := map[string]int{}
+	for i, n := range tb.toknames {
+		tokNum[n] = i + 1
+	}
+	// operator table of the property statement (pragmas in the contract file)
+	levels := map[string]opLevel{}
+	for _, row := range P.Spec.OpTable {
+		for _, tk := range row.Tokens {
+			if _, ok := tokNum[tk]; !ok {
+				return fail(fmt.Errorf("optable: token %s is not a token of the grammar", tk))
+			}
+			key := tk
+			if row.Assoc == "unary" {
+				key = "unary " + tk
+			}
+			levels[key] = opLevel{row.Level, row.Assoc}
+		}
+	}
+	if len(levels) == 0 {
+		return fail(fmt.Errorf("no optable pragmas found"))
+	}
+	// the level of an operator production
+	prodLevel := func(p production) (opLevel, string, bool) {
+		n := len(p.rhs)
+		switch {
+		case n == 2 && p.rhs[1] == "expr" && p.prec != "":
+			l, ok := levels["unary "+p.rhs[0]]
+			return l, p.rhs[0], ok
+		case n == 3 && p.rhs[0] == "expr" && p.rhs[2] == "expr":
+			l, ok := levels[p.rhs[1]]
+			if ok && (l.assoc == "left" || l.assoc == "right") {
+				return l, p.rhs[1], true
+			}
+		case n == 5 && p.rhs[0] == "expr" && p.rhs[2] == "expr" && p.rhs[4] == "expr":
+			l, ok := levels[p.rhs[1]]
+			if ok && (l.assoc == "left" || l.assoc == "right") {
+				return l, p.rhs[1], true
+			}
+		}
+		return opLevel{}, "", false
+	}
+	// lookahead tokens: every binary/ternary operator and every postfix starter of the table
+	var looks []string
+	for k, l := range levels {
+		if l.assoc != "unary" {
+			looks = append(looks, k)
+		}
+	}
+	sort.Strings(looks)
+	// states in which each production is reducible
+	reducible := map[int][]int{}
+	for s := range tb.def {
+		d := tb.def[s]
+		if d > 0 {
+			reducible[d] = append(reducible[d], s)
+		} else if d == -2 {
+			seen := map[int]bool{}
+			for _, p := range tb.excaProds(s) {
+				if p > 0 && !seen[p] {
+					seen[p] = true
+					reducible[p] = append(reducible[p], s)
+				}
+			}
+		}
+	}
+	d := e.decls
+	d.add("fun:yyPact", "(declare-fun yyPact (Int) Int)")
+	d.add("fun:yyAct", "(declare-fun yyAct (Int) Int)")
+	d.add("fun:yyChk", "(declare-fun yyChk (Int) Int)")
+	d.add("fun:yyDef", "(declare-fun yyDef (Int) Int)")
+	d.add("fun:yyExcaAct", "(declare-fun yyExcaAct (Int Int) Int)")
+	d.add("fun:lrAction", fmt.Sprintf("(define-fun lrAction ((s Int) (t Int)) Int (let ((n (+ (yyPact s) t))) (ite (and (> (yyPact s) (- %d)) (>= n 0) (< n %d) (= (yyChk (yyAct n)) t)) (+ %d (yyAct n)) (ite (= (yyDef s) (- 2)) (yyExcaAct s t) (yyDef s)))))", -tb.flag, tb.last, shiftBase))
+	fn := func(f string, args ...int) Term {
+		ts := make([]Term, len(args))
+		for i, a := range args {
+			ts[i] = I(int64(a))
+		}
+		return app(SInt, f, ts...)
+	}
+	nOps := 0
+	for _, p := range prods {
+		lp, opTok, ok := prodLevel(p)
+		if !ok {
+			continue
+		}
+		nOps++
+		states := reducible[p.num]
+		for _, b := range looks {
+			lb := levels[b]
+			expectReduce := false
+			switch {
+			case lb.assoc == "postfix":
+				expectReduce = false
+			case lp.level > lb.level:
+				expectReduce = true
+			case lp.level < lb.level:
+				expectReduce = false
+			default:
+				expectReduce = lp.assoc == "left"
+			}
+			tk := tokNum[b]
+			var facts, goals []Term
+			for _, s := range states {
+				facts = append(facts, Eq(fn("yyPact", s), I(int64(tb.pact[s]))), Eq(fn("yyDef", s), I(int64(tb.def[s]))))
+				if n := tb.pact[s] + tk; tb.pact[s] > tb.flag && n >= 0 && n < tb.last && n < len(tb.act) {
+					a := tb.act[n]
+					facts = append(facts, Eq(fn("yyAct", n), I(int64(a))))
+					if a >= 0 && a < len(tb.chk) {
+						facts = append(facts, Eq(fn("yyChk", a), I(int64(tb.chk[a]))))
+					}
+				}
+				if tb.def[s] == -2 {
+					if x, ok := tb.excaLookup(s, tk); ok {
+						facts = append(facts, Eq(fn("yyExcaAct", s, tk), I(int64(x))))
+					}
+				}
+				if expectReduce {
+					goals = append(goals, Eq(fn("lrAction", s, tk), I(int64(p.num))))
+				} else {
+					goals = append(goals, Ge(fn("lrAction", s, tk), I(shiftBase)))
+				}
+			}
+			goal := TFalse
+			what := "shift (the continuation binds tighter)"
+			if expectReduce {
+				what = "reduce (the production binds tighter, or equally and its level is left-associative)"
+			}
+			desc := fmt.Sprintf("in each of the %d LR states where `%s` is reducible, the action on lookahead %s is %s", len(states), p, b, what)
+			if len(states) > 0 {
+				goal = And(goals...)
+			} else {
+				desc += " — NO state found in which the production is reducible"
+			}
+			e.groundObl("table", "lr."+opTok+"~"+b+"."+fmt.Sprint(len(p.rhs)), []string{"C03"}, goal, desc, token.NoPos)
+			o := e.obls[len(e.obls)-1]
+			for _, f := range facts {
+				o.Extra = append(o.Extra, "(assert "+f.S+")")
+			}
+			o.Witness = map[string]string{"kind": "lr", "prod": p.String(), "op": opTok, "arity": fmt.Sprint(len(p.rhs)), "look": b, "expect": map[bool]string{true: "reduce", false: "shift"}[expectReduce]}
+		}
+	}
+	if nOps == 0 {
+		e.unsupported = "no operator productions matched the optable"
+	}
+	return []*Enc{e}
+}
